@@ -17,10 +17,13 @@ import (
 	"math/rand"
 	"net/http"
 	"net/http/httptest"
+	"net/url"
 	"os"
 	"path/filepath"
 	"regexp"
 	"strings"
+	"sync"
+	"sync/atomic"
 
 	grpcmw "goa.design/goa/v3/grpc/middleware"
 	httpmw "goa.design/goa/v3/http/middleware"
@@ -176,7 +179,8 @@ type RidCase struct {
 	Kind    string   `json:"kind"`
 	Opts    []RidOpt `json:"opts"`
 	Headers []HV     `json:"headers"`
-	Pre     *B       `json:"pre,omitempty"` // value already in the context under RequestIDKey
+	Pre     *B       `json:"pre,omitempty"`  // value already in the context under RequestIDKey
+	Wrap    bool     `json:"wrap,omitempty"` // build the options with the transport package's wrappers
 }
 
 type RidObs struct {
@@ -185,15 +189,25 @@ type RidObs struct {
 	Panic    string `json:",omitempty"`
 }
 
-func ridOptions(opts []RidOpt) []middleware.RequestIDOption {
+func (c RidCase) options() []middleware.RequestIDOption {
 	var out []middleware.RequestIDOption
-	for _, o := range opts {
-		switch o.K {
-		case "use":
+	for _, o := range c.Opts {
+		switch {
+		case o.K == "use" && c.Wrap && c.Kind == "http":
+			out = append(out, httpmw.UseXRequestIDHeaderOption(o.Flag))
+		case o.K == "use" && c.Wrap:
+			out = append(out, grpcmw.UseXRequestIDMetadataOption(o.Flag))
+		case o.K == "use":
 			out = append(out, middleware.UseRequestIDOption(o.Flag))
-		case "header":
+		case o.K == "header" && c.Wrap && c.Kind == "http":
+			out = append(out, httpmw.RequestIDHeaderOption(o.Name))
+		case o.K == "header":
 			out = append(out, middleware.RequestIDHeaderOption(o.Name))
-		case "limit":
+		case o.K == "limit" && c.Wrap && c.Kind == "http":
+			out = append(out, httpmw.XRequestHeaderLimitOption(o.Limit))
+		case o.K == "limit" && c.Wrap:
+			out = append(out, grpcmw.XRequestMetadataLimitOption(o.Limit))
+		case o.K == "limit":
 			out = append(out, middleware.RequestIDLimitOption(o.Limit))
 		}
 	}
@@ -218,7 +232,7 @@ func strOrEmpty(v any) string {
 // the handler found in its context and (gRPC) the x-request-id values of the
 // incoming metadata the handler found.
 func runRidOnce(c RidCase) (id string, md []string) {
-	opts := ridOptions(c.Opts)
+	opts := c.options()
 	base := context.Background()
 	if c.Pre != nil {
 		base = context.WithValue(base, middleware.RequestIDKey, string(*c.Pre)) // nolint
@@ -282,8 +296,26 @@ func (c RidCase) inboundValue(header string) string {
 	return ""
 }
 
+// configured is what the option list asks for, as documented on the options:
+// UseRequestIDOption(f) sets trust to f (and the header to X-Request-Id),
+// RequestIDHeaderOption(n) names the header and enables trust, the limit option
+// sets the limit; later options win.
+func (c RidCase) configured() (use bool, header string, limit int) {
+	for _, x := range c.Opts {
+		switch x.K {
+		case "use":
+			use, header = x.Flag, "X-Request-Id"
+		case "header":
+			use, header = true, x.Name
+		case "limit":
+			limit = x.Limit
+		}
+	}
+	return
+}
+
 // ridOracle: the sentences of the property about request ids, evaluated on what
-// the Go code did. The configuration is read back from the real options object.
+// the Go code did against what the option list asks for.
 func ridOracle(c RidCase, o RidObs, res *vh.Result) {
 	fail := func(sig, what string) { record(res, sig, what, c) }
 	if o.Panic != "" {
@@ -294,14 +326,7 @@ func ridOracle(c RidCase, o RidObs, res *vh.Result) {
 		fail("request-id-empty", "the handler's context carries no (or an empty) request id")
 		return
 	}
-	ro := middleware.NewRequestIDOptions(ridOptions(c.Opts)...)
-	use, header := ro.IsUseRequestID(), ro.RequestIDHeader()
-	limit := 0
-	for _, x := range c.Opts {
-		if x.K == "limit" {
-			limit = x.Limit
-		}
-	}
+	use, header, limit := c.configured()
 	inbound := c.inboundValue(header)
 	if c.Kind != "http" {
 		if len(o.MD1) != 1 || o.MD1[0] != o.ID1 || len(o.MD2) != 1 || o.MD2[0] != o.ID2 {
@@ -360,7 +385,7 @@ func coqRid(i int, c RidCase, o RidObs) string {
 		copt(pre), cbytes(string(o.ID1)), cbytes(string(o.ID2)), clist(bs(o.MD1)), clist(bs(o.MD2)))
 }
 
-var ridValues = []string{"a", "abc", "req-12345", "0123456789abcdef0123456789abcdef01234567", "h\xc3\xa9llo w\xc3\xb6rld \xe2\x9c\x93", "\xff\xfe\x00x", " pad ", "x;y,z"}
+var ridValues = []string{"a", "abc", "req-12345", "0123456789abcdef01234567", "h\xc3\xa9llo w\xc3\xb6rld \xe2\x9c\x93", "\xff\xfe\x00x", " pad ", "x;y,z"}
 
 func longValue(r *vh.RNG, n int) string {
 	b := make([]byte, n)
@@ -372,7 +397,7 @@ func longValue(r *vh.RNG, n int) string {
 
 func limitsFor(v string) []int {
 	n := len(v)
-	return []int{0, -1, -7, 1, 2, n - 1, n, n + 1, 128, 1 << 40}
+	return []int{0, -1, -7, 1, 2, n - 1, n, n + 1, 128, 1 << 40, -1 << 62}
 }
 
 func genRid(rng *vh.RNG, tier string) []RidCase {
@@ -399,7 +424,7 @@ func genRid(rng *vh.RNG, tier string) []RidCase {
 					if li > 0 && v == "" && li < 8 {
 						continue // limits relative to an empty value collapse
 					}
-					c := RidCase{Stream: "rid", Kind: k}
+					c := RidCase{Stream: "rid", Kind: k, Wrap: (li+len(os))%2 == 0}
 					c.Opts = append(c.Opts, os...)
 					if li > 0 {
 						c.Opts = append(c.Opts, RidOpt{K: "limit", Limit: lim})
@@ -412,12 +437,12 @@ func genRid(rng *vh.RNG, tier string) []RidCase {
 			}
 		}
 	}
-	n := 4500
+	n := 1300
 	if tier == "thorough" {
-		n = 45000
+		n = 22000
 	}
 	for i := 0; i < n; i++ {
-		c := RidCase{Stream: "rid", Kind: vh.Pick(rng, kinds)}
+		c := RidCase{Stream: "rid", Kind: vh.Pick(rng, kinds), Wrap: rng.Bool()}
 		pickVal := func() string {
 			switch rng.Intn(12) {
 			case 0:
@@ -496,6 +521,7 @@ type TraceCase struct {
 	Kind   string `json:"kind"`
 	Opts   []TOpt `json:"opts"`
 	Reqs   []TReq `json:"reqs"`
+	Wrap   bool   `json:"wrap,omitempty"` // options built with the transport package's wrappers
 }
 
 type TObs struct {
@@ -528,22 +554,35 @@ func (g *idGen) spanID() string {
 	return g.span
 }
 
-func traceOptions(opts []TOpt, g *idGen) (out []middleware.TraceOption, adaptive bool, patterns []*regexp.Regexp) {
+// traceOptions builds the real options; wrap selects the constructors re-exported
+// by the transport package (http/middleware, grpc/middleware) instead of the shared ones.
+func traceOptions(opts []TOpt, g *idGen, kind string, wrap bool) (out []middleware.TraceOption, adaptive bool, patterns []*regexp.Regexp) {
+	type ctors struct {
+		percent, maxrate, size func(int) middleware.TraceOption
+		discard                func(*regexp.Regexp) middleware.TraceOption
+		tid, sid               func(middleware.IDFunc) middleware.TraceOption
+	}
+	c := ctors{middleware.SamplingPercent, middleware.MaxSamplingRate, middleware.SampleSize, middleware.DiscardFromTrace, middleware.TraceIDFunc, middleware.SpanIDFunc}
+	if wrap && kind == "http" {
+		c = ctors{httpmw.SamplingPercent, httpmw.MaxSamplingRate, httpmw.SampleSize, httpmw.DiscardFromTrace, httpmw.TraceIDFunc, httpmw.SpanIDFunc}
+	} else if wrap {
+		c = ctors{grpcmw.SamplingPercent, grpcmw.MaxSamplingRate, grpcmw.SampleSize, grpcmw.DiscardFromTrace, grpcmw.TraceIDFunc, grpcmw.SpanIDFunc}
+	}
 	for _, o := range opts {
 		switch o.K {
 		case "percent":
-			out = append(out, middleware.SamplingPercent(o.N))
+			out = append(out, c.percent(o.N))
 		case "maxrate":
-			out = append(out, middleware.MaxSamplingRate(o.N))
+			out = append(out, c.maxrate(o.N))
 			adaptive = o.N > 0
 		case "size":
-			out = append(out, middleware.SampleSize(o.N))
+			out = append(out, c.size(o.N))
 		case "discard":
 			re := regexp.MustCompile(o.Pattern)
 			patterns = append(patterns, re)
-			out = append(out, middleware.DiscardFromTrace(re))
+			out = append(out, c.discard(re))
 		case "idfuncs":
-			out = append(out, middleware.TraceIDFunc(g.traceID), middleware.SpanIDFunc(g.spanID))
+			out = append(out, c.tid(g.traceID), c.sid(g.spanID))
 		}
 	}
 	return
@@ -657,13 +696,13 @@ func seedDraw(seed int64, n int) (draw int, used func() (bool, error)) {
 
 func runTrace(c TraceCase) (obs []TObs, matches [][]bool) {
 	g := &idGen{}
-	opts, adaptive, patterns := traceOptions(c.Opts, g)
+	opts, adaptive, patterns := traceOptions(c.Opts, g, c.Kind, c.Wrap)
 	srv := newServer(c.Kind, opts)
 	for _, q := range c.Reqs {
 		var o TObs
 		ms := make([]bool, len(patterns))
 		for i, re := range patterns {
-			ms[i] = re.MatchString(q.Path)
+			ms[i] = re.MatchString(matchTarget(c.Kind, q.Path))
 		}
 		matches = append(matches, ms)
 		func() {
@@ -701,6 +740,16 @@ func runTrace(c TraceCase) (obs []TObs, matches [][]bool) {
 	return
 }
 
+// matchTarget is the string the transport hands to the discard patterns.
+func matchTarget(kind, path string) string {
+	if kind == "http" {
+		if u, err := url.Parse("http://svc" + path); err == nil {
+			return u.Path
+		}
+	}
+	return path
+}
+
 func first(xs []B) string {
 	if len(xs) == 0 {
 		return ""
@@ -733,7 +782,7 @@ func traceOracle(c TraceCase, obs []TObs, matches [][]bool, res *vh.Result) {
 	p, adaptive := effPercent(c.Opts)
 	for i, q := range c.Reqs {
 		o := obs[i]
-		in := map[string]any{"stream": "trace", "kind": c.Kind, "opts": c.Opts, "reqs": c.Reqs[:i+1], "failing_request": i}
+		in := map[string]any{"stream": "trace", "kind": c.Kind, "opts": c.Opts, "wrap": c.Wrap, "reqs": c.Reqs[:i+1], "failing_request": i}
 		fail := func(sig, what string) { record(res, sig, what, in) }
 		if o.Panic != "" {
 			fail("trace-panic", "trace middleware: "+o.Panic)
@@ -831,10 +880,10 @@ func coqTrace(i int, c TraceCase, obs []TObs, matches [][]bool) string {
 }
 
 var (
-	tracePaths    = []string{"/health", "/api/ping", "/api/items", "/svc.Health/Check", "/svc.Items/List", "/"}
+	tracePaths    = []string{"/health", "/api/ping", "/api/items", "/svc.Health/Check", "/svc.Items/List", "/", "/api/orders?probe=ping", "/api/it%65ms"}
 	discardPats   = []string{"^/health", "ping$", `^/svc\.Health/`, "items"}
-	inboundTraces = [][]B{nil, nil, nil, {""}, {"tid-in"}, {"0af7651916cd43dd8448eb211c80319c"}, {"t1", "t2"}, {"", "t2"}, {"tr\xc3\xa9"}}
-	inboundParent = [][]B{nil, nil, {""}, {"span-in"}, {"b7ad6b7169203331"}, {"p1", "p2"}, {"", "p2"}}
+	inboundTraces = [][]B{nil, nil, nil, {""}, {"tid-in"}, {"0af7651916cd43dd8448eb211c80319c"}, {"t1", "t2"}, {"", "t2"}, {"tr\xc3\xa9"}, {"x"}, {"span-in"}}
+	inboundParent = [][]B{nil, nil, {""}, {"span-in"}, {"b7ad6b7169203331"}, {"p1", "p2"}, {"", "p2"}, {"x"}, {"tid-in"}}
 )
 
 func bp(s string) *B { b := B(s); return &b }
@@ -912,12 +961,12 @@ func genTrace(rng *vh.RNG, tier string) []TraceCase {
 			}
 		}
 	}
-	n := 2000
+	n := 1200
 	if tier == "thorough" {
-		n = 20000
+		n = 11000
 	}
 	for i := 0; i < n; i++ {
-		c := TraceCase{Stream: "trace", Kind: vh.Pick(rng, kinds)}
+		c := TraceCase{Stream: "trace", Kind: vh.Pick(rng, kinds), Wrap: rng.Bool()}
 		var size int
 		var adaptive bool
 		c.Opts, size, adaptive = genTOpts(rng, true)
@@ -979,7 +1028,7 @@ func runChain(c ChainCase) (o ChainObs) {
 	serve = func(k int, trace, parent []string) {
 		h := c.Hops[k]
 		g := &idGen{trace: string(h.NewTrace), span: string(h.NewSpan)}
-		opts, adaptive, patterns := traceOptions(h.Opts, g)
+		opts, adaptive, patterns := traceOptions(h.Opts, g, h.Kind, k%2 == 1)
 		n := 100
 		if adaptive {
 			n = 10000
@@ -987,7 +1036,7 @@ func runChain(c ChainCase) (o ChainObs) {
 		draw, _ := seedDraw(h.Seed, n)
 		ho := HopObs{InTrace: toB(trace), InParent: toB(parent), Draw: draw}
 		for _, re := range patterns {
-			ho.Matches = append(ho.Matches, re.MatchString(h.Path))
+			ho.Matches = append(ho.Matches, re.MatchString(matchTarget(h.Kind, h.Path)))
 		}
 		o.Hops = append(o.Hops, ho)
 		srv := newServer(h.Kind, opts)
@@ -1121,7 +1170,7 @@ func coqChain(i int, c ChainCase, o ChainObs) string {
 func genChains(rng *vh.RNG, tier string) []ChainCase {
 	n, maxDepth := 500, 4
 	if tier == "thorough" {
-		n, maxDepth = 5000, 8
+		n, maxDepth = 3500, 8
 	}
 	var cases []ChainCase
 	mk := func(i, depth int, hopKind func(k int) string, always bool) ChainCase {
@@ -1296,15 +1345,7 @@ func captureOracle(c CaptureCase, o CaptureObs, res *vh.Result) {
 		want = 0
 	}
 	if o.Status != want {
-		what := fmt.Sprintf("StatusCode = %d, the status actually written is %d", o.Status, want)
-		switch {
-		case disciplined(c.Events):
-			fail("capture-status-differs", what)
-		case c.Events[0].K == "f":
-			fail("capture/flush-first-status", what)
-		default:
-			fail("capture/writeheader-after-commit", what)
-		}
+		fail("capture-status-differs", fmt.Sprintf("StatusCode = %d, the status actually written is %d", o.Status, want))
 	}
 }
 
@@ -1331,7 +1372,8 @@ func coqCapture(i int, c CaptureCase, o CaptureObs) string {
 
 var codes = []int{200, 200, 201, 202, 301, 400, 404, 418, 500, 503, 599, 999}
 
-// the histories that re-demonstrate the recorded findings (and their agreeing neighbours)
+// histories in which the handler misuses the writer (WriteHeader twice, WriteHeader
+// after the body was started, Flush first): net/http keeps the first status
 var captureWitnesses = [][]Ev{
 	{{K: "wh", N: 201}, {K: "wh", N: 500}},
 	{{K: "w", N: 3}, {K: "wh", N: 404}},
@@ -1358,24 +1400,39 @@ func genCapture(rng *vh.RNG, tier string) []CaptureCase {
 	}
 	n, nreal := 1200, 40
 	if tier == "thorough" {
-		n, nreal = 12000, 400
+		n, nreal = 10000, 400
 	}
 	for i := 0; i < n+nreal; i++ {
 		c := CaptureCase{Stream: "capture", Budget: -1, Real: i >= n}
 		if !c.Real && rng.Chance(1, 5) {
 			c.Budget = rng.Intn(40)
 		}
-		if rng.Chance(3, 5) {
-			c.Events = append(c.Events, Ev{K: "wh", N: vh.Pick(rng, codes)})
-		} else if rng.Chance(4, 5) {
-			c.Events = append(c.Events, Ev{K: "w", N: rng.Intn(30)})
-		}
-		if len(c.Events) > 0 {
-			for k := rng.Intn(6); k > 0; k-- {
-				if rng.Chance(1, 4) {
+		if rng.Chance(1, 2) {
+			// well-behaved handler: at most one WriteHeader, first
+			if rng.Chance(3, 5) {
+				c.Events = append(c.Events, Ev{K: "wh", N: vh.Pick(rng, codes)})
+			} else if rng.Chance(4, 5) {
+				c.Events = append(c.Events, Ev{K: "w", N: rng.Intn(30)})
+			}
+			if len(c.Events) > 0 {
+				for k := rng.Intn(6); k > 0; k-- {
+					if rng.Chance(1, 4) {
+						c.Events = append(c.Events, Ev{K: "f"})
+					} else {
+						c.Events = append(c.Events, Ev{K: "w", N: vh.Pick(rng, []int{0, 1, 2, 7, 16, 64, rng.Intn(200)})})
+					}
+				}
+			}
+		} else {
+			// any interleaving of the three calls
+			for k := rng.Intn(7); k > 0; k-- {
+				switch rng.Intn(5) {
+				case 0, 1:
+					c.Events = append(c.Events, Ev{K: "wh", N: vh.Pick(rng, codes)})
+				case 2:
 					c.Events = append(c.Events, Ev{K: "f"})
-				} else {
-					c.Events = append(c.Events, Ev{K: "w", N: vh.Pick(rng, []int{0, 1, 2, 7, 16, 64, rng.Intn(200)})})
+				default:
+					c.Events = append(c.Events, Ev{K: "w", N: vh.Pick(rng, []int{0, 1, 3, 16, rng.Intn(100)})})
 				}
 			}
 		}
@@ -1384,11 +1441,229 @@ func genCapture(rng *vh.RNG, tier string) []CaptureCase {
 	return cases
 }
 
+// ================================================================ log (end to end)
+
+// LogCase: the request-id middleware in front of the Log middleware in front of a
+// handler that plays a writer history. The id the Log middleware
+// prints must be the id the handler sees, and (HTTP) the status / byte count it
+// prints must be what was written.
+type LogCase struct {
+	Stream string  `json:"stream"`
+	Rid    RidCase `json:"rid"`
+	Events []Ev    `json:"events"`
+	NoRid  bool    `json:"no_rid,omitempty"` // Log middleware alone
+}
+
+type memLogger struct{ entries [][]any }
+
+func (m *memLogger) Log(keyvals ...any) error {
+	m.entries = append(m.entries, append([]any{}, keyvals...))
+	return nil
+}
+
+func kv(entry []any, key string) (any, bool) {
+	for i := 0; i+1 < len(entry); i += 2 {
+		if entry[i] == key {
+			return entry[i+1], true
+		}
+	}
+	return nil, false
+}
+
+func runLog(c LogCase, res *vh.Result) {
+	fail := func(sig, what string) { record(res, sig, what, c) }
+	defer func() {
+		if r := recover(); r != nil {
+			fail("log-panic", fmt.Sprint(r))
+		}
+	}()
+	ml := &memLogger{}
+	opts := c.Rid.options()
+	var seenID any
+	var code, blen int
+	wrote := len(c.Events) > 0
+	switch c.Rid.Kind {
+	case "http":
+		var h http.Handler = http.HandlerFunc(func(w http.ResponseWriter, r *http.Request) {
+			seenID = r.Context().Value(middleware.RequestIDKey)
+			play(w, c.Events)
+		})
+		h = httpmw.Log(ml)(h)
+		if !c.NoRid {
+			h = httpmw.RequestID(opts...)(h)
+		}
+		r := httptest.NewRequest("GET", "http://svc/items", nil)
+		for _, hv := range c.Rid.Headers {
+			r.Header[http.CanonicalHeaderKey(hv.Name)] = bs(hv.Values)
+		}
+		rec := httptest.NewRecorder()
+		h.ServeHTTP(rec, r)
+		code, blen = rec.Code, rec.Body.Len()
+	default:
+		m := metadata.MD{}
+		for _, hv := range c.Rid.Headers {
+			m[strings.ToLower(hv.Name)] = bs(hv.Values)
+		}
+		ctx := metadata.NewIncomingContext(context.Background(), m)
+		if c.Rid.Kind == "unary" {
+			inner := func(ctx context.Context, req any) (any, error) {
+				return grpcmw.UnaryServerLog(ml)(ctx, req, &grpc.UnaryServerInfo{FullMethod: "/svc.Items/List"},
+					func(ctx context.Context, req any) (any, error) {
+						seenID = ctx.Value(middleware.RequestIDKey)
+						return nil, nil
+					})
+			}
+			if c.NoRid {
+				_, _ = inner(ctx, nil)
+			} else {
+				_, _ = grpcmw.UnaryRequestID(opts...)(ctx, nil, &grpc.UnaryServerInfo{FullMethod: "/svc.Items/List"}, inner)
+			}
+		} else {
+			inner := func(srv any, ss grpc.ServerStream) error {
+				return grpcmw.StreamServerLog(ml)(srv, ss, &grpc.StreamServerInfo{FullMethod: "/svc.Items/Watch"},
+					func(srv any, ss grpc.ServerStream) error {
+						seenID = ss.Context().Value(middleware.RequestIDKey)
+						return nil
+					})
+			}
+			if c.NoRid {
+				_ = inner(nil, &fakeServerStream{ctx: ctx})
+			} else {
+				_ = grpcmw.StreamRequestID(opts...)(nil, &fakeServerStream{ctx: ctx}, &grpc.StreamServerInfo{FullMethod: "/svc.Items/Watch"}, inner)
+			}
+		}
+	}
+	if len(ml.entries) != 2 {
+		fail("log-entries", fmt.Sprintf("%d log entries for one request", len(ml.entries)))
+		return
+	}
+	id0, _ := kv(ml.entries[0], "id")
+	id1, _ := kv(ml.entries[1], "id")
+	if id0 != id1 || id0 == nil || id0 == "" {
+		fail("log-request-id-differs", fmt.Sprintf("request logged under id %v, response under %v", id0, id1))
+	}
+	if !c.NoRid && (seenID == nil || seenID != id0) {
+		fail("log-request-id-differs", fmt.Sprintf("log middleware printed id %v, the handler's context carries %v", id0, seenID))
+	}
+	if c.Rid.Kind == "http" {
+		st, _ := kv(ml.entries[1], "status")
+		by, _ := kv(ml.entries[1], "bytes")
+		want := code
+		if !wrote {
+			want = 0
+		}
+		if st != want || by != blen {
+			fail("log-status-bytes-differ", fmt.Sprintf("log middleware printed status=%v bytes=%v, written: status %d, %d bytes", st, by, want, blen))
+		}
+	}
+}
+
+// ================================================================ concurrent requests
+
+// concurrent sends requests with distinct identifiers through ONE instance of
+// each middleware from several goroutines: every handler must see its own.
+func concurrent(res *vh.Result, workers, per int) int {
+	total := 0
+	for _, k := range kinds {
+		k := k
+		var spanCtr int64
+		var mu sync.Mutex
+		spans := map[string]bool{}
+		bad := ""
+		note := func(s string) {
+			mu.Lock()
+			if bad == "" {
+				bad = s
+			}
+			mu.Unlock()
+		}
+		topts := []middleware.TraceOption{middleware.SpanIDFunc(func() string { return fmt.Sprintf("cs%d", atomic.AddInt64(&spanCtr, 1)) })}
+		tsrv := newServer(k, topts)
+		ropts := []middleware.RequestIDOption{middleware.UseRequestIDOption(true), middleware.RequestIDLimitOption(12)}
+		var rhttp http.Handler
+		var runary grpc.UnaryServerInterceptor
+		var rstream grpc.StreamServerInterceptor
+		switch k {
+		case "http":
+			rhttp = httpmw.RequestID(ropts...)(http.HandlerFunc(func(w http.ResponseWriter, r *http.Request) {
+				if got := strOrEmpty(r.Context().Value(middleware.RequestIDKey)); got != r.Header.Get("X-Want") {
+					note(fmt.Sprintf("request id %q, own inbound id %q", got, r.Header.Get("X-Want")))
+				}
+			}))
+		case "unary":
+			runary = grpcmw.UnaryRequestID(ropts...)
+		default:
+			rstream = grpcmw.StreamRequestID(ropts...)
+		}
+		var wg sync.WaitGroup
+		for g := 0; g < workers; g++ {
+			g := g
+			wg.Add(1)
+			go func() {
+				defer wg.Done()
+				defer func() {
+					if r := recover(); r != nil {
+						note(fmt.Sprint("panic: ", r))
+					}
+				}()
+				for i := 0; i < per; i++ {
+					own := fmt.Sprintf("w%02d-r%05d-tail", g, i)
+					want := own[:12]
+					tr, pa := "t-"+own, "p-"+own
+					tsrv.call("/api/items", false, []string{tr}, []string{pa}, Ctx3{}, func(ctx context.Context) {
+						c := readCtx(ctx)
+						if deref(c.Trace) != tr || deref(c.Parent) != pa || c.Span == nil {
+							note(fmt.Sprintf("trace context %q/%q/%q for inbound %q/%q", deref(c.Trace), deref(c.Span), deref(c.Parent), tr, pa))
+							return
+						}
+						mu.Lock()
+						if spans[string(*c.Span)] {
+							if bad == "" {
+								bad = "span " + string(*c.Span) + " used by two requests"
+							}
+						}
+						spans[string(*c.Span)] = true
+						mu.Unlock()
+					})
+					switch k {
+					case "http":
+						r := httptest.NewRequest("GET", "http://svc/items", nil)
+						r.Header.Set("X-Request-Id", own)
+						r.Header.Set("X-Want", want)
+						rhttp.ServeHTTP(httptest.NewRecorder(), r)
+					default:
+						ctx := metadata.NewIncomingContext(context.Background(), metadata.Pairs("x-request-id", own))
+						check := func(ctx context.Context) {
+							md, _ := metadata.FromIncomingContext(ctx)
+							if got := strOrEmpty(ctx.Value(middleware.RequestIDKey)); got != want || len(md["x-request-id"]) != 1 || md["x-request-id"][0] != want {
+								note(fmt.Sprintf("request id %q (metadata %q), own inbound id %q", got, md["x-request-id"], want))
+							}
+						}
+						if k == "unary" {
+							_, _ = runary(ctx, nil, &grpc.UnaryServerInfo{FullMethod: "/svc.Items/List"}, func(ctx context.Context, req any) (any, error) { check(ctx); return nil, nil })
+						} else {
+							_ = rstream(nil, &fakeServerStream{ctx: ctx}, &grpc.StreamServerInfo{FullMethod: "/svc.Items/Watch"}, func(srv any, ss grpc.ServerStream) error { check(ss.Context()); return nil })
+						}
+					}
+				}
+			}()
+		}
+		wg.Wait()
+		total += 2 * workers * per
+		if bad != "" {
+			record(res, "concurrent-requests-crosstalk", "concurrent requests through one middleware instance: "+bad,
+				map[string]any{"stream": "concurrent", "kind": k, "workers": workers, "requests_per_worker": per})
+		}
+	}
+	res.Dist["concurrent_requests"] = total
+	return total
+}
+
 // ================================================================ samplers
 
 // samplerTable runs the real fixedSampler on every percentage 0..100 against
 // every value 0..99 intn(100) can return (seeds found by search).
-func samplerTable(res *vh.Result, v *strings.Builder) int {
+func samplerTable(res *vh.Result, v *strings.Builder, full bool) int {
 	seedFor := map[int]int64{}
 	for s := int64(1); len(seedFor) < 100 && s < 100000; s++ {
 		d := rand.New(rand.NewSource(s)).Intn(100)
@@ -1411,7 +1686,11 @@ func samplerTable(res *vh.Result, v *strings.Builder) int {
 			if p == 100 && !got {
 				record(res, "sampling-100-untraced", "fixed sampler at 100% did not sample", map[string]any{"stream": "sampler", "percent": p, "draw": r})
 			}
-			fmt.Fprintf(v, "(%d, %s, %s, %s)\n", idx, cz(p), cz(r), vh.CoqBool(got))
+			// every row is judged by the direct oracle above; the quick tier hands the rows
+			// around the boundary r = p (and the extreme draws and percentages) to the model
+			if full || p <= 1 || p >= 99 || p == 50 || r == 0 || r == 99 || (r >= p-1 && r <= p+1) {
+				fmt.Fprintf(v, "(%d, %s, %s, %s)\n", idx, cz(p), cz(r), vh.CoqBool(got))
+			}
 			idx++
 		}
 	}
@@ -1483,9 +1762,21 @@ func main() {
 	tier := flag.String("tier", "quick", "")
 	out := flag.String("out", ".", "")
 	replay := flag.String("replay", "", "")
+	only := flag.String("only", "", "run only the named direct-oracle stream (concurrent)")
 	flag.Parse()
 	rng := vh.NewRNG(*seed)
 	res := vh.NewResult()
+
+	if *only == "concurrent" {
+		// used with a -race build: many goroutines through one middleware instance
+		r := vh.NewResult()
+		r.Evaluations = concurrent(r, 8, 400)
+		r.Rule = "8 goroutines x 400 requests with distinct ids through one middleware instance per transport"
+		if err := r.Write(filepath.Join(*out, "result_concurrent.json")); err != nil {
+			panic(err)
+		}
+		return
+	}
 
 	// the draw mirror must describe the generator middleware.intn uses
 	if d, used := seedDraw(12345, 100); true {
@@ -1501,6 +1792,7 @@ func main() {
 	var traces []TraceCase
 	var chains []ChainCase
 	var captures []CaptureCase
+	var logs []LogCase
 	table, loops := true, true
 	if *replay != "" {
 		b, err := os.ReadFile(*replay)
@@ -1535,6 +1827,12 @@ func main() {
 			var c CaptureCase
 			_ = json.Unmarshal(rp.Input, &c)
 			captures = append(captures, c)
+		case "log":
+			var c LogCase
+			_ = json.Unmarshal(rp.Input, &c)
+			logs = append(logs, c)
+		case "concurrent":
+			concurrent(res, 8, 1500)
 		case "sampler":
 			table = true
 		case "sampling":
@@ -1561,14 +1859,14 @@ func main() {
 		lines = append(lines, coqRid(i, c, o))
 		cases["rid"] = append(cases["rid"], c)
 		res.Count("rid_kind=" + c.Kind)
-		ro := middleware.NewRequestIDOptions(ridOptions(c.Opts)...)
-		in := c.inboundValue(ro.RequestIDHeader())
+		use, hdr, _ := c.configured()
+		in := c.inboundValue(hdr)
 		switch {
 		case c.Pre != nil:
 			res.Count("rid_class=context-already-has-id")
-		case ro.IsUseRequestID() && in != "":
+		case use && in != "":
 			res.Count("rid_class=trusted-inbound")
-		case ro.IsUseRequestID():
+		case use:
 			res.Count("rid_class=trusted-nothing-inbound")
 		case in != "":
 			res.Count("rid_class=untrusted-inbound")
@@ -1653,9 +1951,9 @@ func main() {
 			res.Count("capture_writer=recorder")
 		}
 		if disciplined(c.Events) {
-			res.Count("capture_history=disciplined")
+			res.Count("capture_history=well-behaved")
 		} else {
-			res.Count("capture_history=witness (WriteHeader after commit / Flush first)")
+			res.Count("capture_history=misused writer (WriteHeader after commit / Flush first)")
 		}
 		if len(c.Events) >= 2 {
 			distinct.Add(hashKey(c))
@@ -1667,9 +1965,36 @@ func main() {
 	evals += len(captures)
 	writeLines(*out, "cases_capture.txt", lines)
 
+	// end to end through the Log middlewares (direct oracle only)
+	if *replay == "" {
+		lr := rng.Fork()
+		nlog := 600
+		if *tier == "thorough" {
+			nlog = 6000
+		}
+		var hist [][]Ev
+		for _, c := range captures {
+			if !c.Real {
+				hist = append(hist, c.Events)
+			}
+		}
+		for i := 0; i < nlog; i++ {
+			lc := LogCase{Stream: "log", Rid: rids[lr.Intn(len(rids))], Events: hist[lr.Intn(len(hist))], NoRid: lr.Chance(1, 8)}
+			lc.Rid.Pre = nil
+			runLog(lc, res)
+			res.Count("log_kind=" + lc.Rid.Kind)
+		}
+		evals += nlog
+		evals += concurrent(res, 8, 1500)
+	}
+	for _, lc := range logs {
+		runLog(lc, res)
+		evals++
+	}
+
 	var sv strings.Builder
 	if table {
-		n := samplerTable(res, &sv)
+		n := samplerTable(res, &sv, *tier == "thorough")
 		evals += n
 		distinct.Add("sampler-table") // counted once: one exhaustive table
 	}
@@ -1686,7 +2011,7 @@ func main() {
 
 	res.Evaluations = evals
 	res.Distinct = len(distinct)
-	res.Rule = "request id: kinds {http, grpc unary, grpc stream} x option lists (use on/off, header names incl. case variants and the empty name, limits 0, negative, 1, len-1, len, len+1, huge; later options override earlier ones) x inbound values (absent, empty, short, long, multi-byte, invalid UTF-8, several values, first value empty) x optional id already in the context, every case run twice; trace: sequences of 1-5 requests through one middleware instance (sampling 0..100, default, adaptive below its sample size, 0-2 discard patterns, inbound trace / parent headers absent, empty, single, multiple, stale context values, nil URL), math/rand reseeded per request so the draw is known; chains: depth 1-4 (thorough 1-8) of servers of random transports calling the next through WrapDoer / UnaryClientTrace / StreamClientTrace; capture: writer histories over WriteHeader/Write/Flush against httptest.ResponseRecorder (with short writes) and a real net/http server; fixed sampler: every percentage 0..100 x every draw 0..99 (exhaustive); sampling loops: 0 %, 100 % and default over n requests per transport. Non-trivial = request-id case with a non-empty inbound value or context id; trace sequence with an inbound trace id, a sampler draw or more than one request; chain of depth >= 2 whose first server is traced; history with at least two events; distinct = distinct inputs among those"
+	res.Rule = "request id: kinds {http, grpc unary, grpc stream} x option lists (use on/off, header names incl. case variants and the empty name, limits 0, negative, 1, len-1, len, len+1, huge; later options override earlier ones) x inbound values (absent, empty, short, long, multi-byte, invalid UTF-8, several values, first value empty) x optional id already in the context, every case run twice; trace: sequences of 1-5 requests through one middleware instance (sampling 0..100, default, adaptive below its sample size, 0-2 discard patterns, inbound trace / parent headers absent, empty, single, multiple, stale context values, nil URL), math/rand reseeded per request so the draw is known; chains: depth 1-4 (thorough 1-8) of servers of random transports calling the next through WrapDoer / UnaryClientTrace / StreamClientTrace; capture: writer histories over WriteHeader/Write/Flush in any order (repeated and late WriteHeader calls, Flush first) against httptest.ResponseRecorder (with short writes) and a real net/http server; fixed sampler: every percentage 0..100 x every draw 0..99 run on the real sampler (exhaustive; the quick tier compares the rows around r = p, the extreme draws and percentages 0, 1, 50, 99, 100 with the model, the thorough tier all of them); sampling loops: 0 %, 100 % and default over n requests per transport; log: request-id middleware -> Log middleware -> handler playing a writer history (direct oracle only); concurrent: 8 goroutines x 1500 requests with distinct ids through one middleware instance per transport (direct oracle only). Non-trivial = request-id case with a non-empty inbound value or context id; trace sequence with an inbound trace id, a sampler draw or more than one request; chain of depth >= 2 whose first server is traced; history with at least two events; distinct = distinct inputs among those"
 	res.Extra["streams"] = map[string]int{"rid": len(rids), "trace": len(traces), "chain": len(chains), "capture": len(captures)}
 	b, _ := json.Marshal(cases)
 	if err := os.WriteFile(filepath.Join(*out, "cases.json"), b, 0o644); err != nil {
